@@ -14,5 +14,5 @@ RULE = ("as C03 with deeper trees (three levels in 70% of the cases), several st
 if __name__ == "__main__":
     common.run_main(lambda: worldcheck.standard_main(
         "C08", ["C08"], THEOREMS, {"nops": 6, "deep": 0.7, "derive": 0.3}, 150, 6000,
-        ["as C01 for the solve itself", "lists of objects are generated with elements reached by index; foreach over a list of objects is not generated"],
+        ["as C01 for the solve itself", "lists of objects are generated: elements reached by index, and foreach over the list with iterator and/or index"],
         RULE, keep=lambda w: not w.startswith("callbacks")))
